@@ -300,6 +300,14 @@ func (c *converter) trackAddedIngress() {
 		if port > 0 {
 			ctx = convtypes.ResourceHATCPService
 		}
+		if port == 0 {
+			// hosts might be declared only in the tls attribute
+			for _, tls := range ing.Spec.TLS {
+				for _, hostname := range tls.Hosts {
+					c.tracker.TrackNames(convtypes.ResourceIngress, name, ctx, hostname)
+				}
+			}
+		}
 		for _, rule := range ing.Spec.Rules {
 			c.tracker.TrackNames(convtypes.ResourceIngress, name, ctx, normalizeHostname(rule.Host, port))
 			if rule.HTTP != nil {
